@@ -302,9 +302,10 @@ func run(r *simkit.Run) {
 		switch prof {
 		case "consensus", "selection", "utxo", "crash":
 			wBurst = 3
-		case "votes":
-			// (branches on either side of a window boundary can be in
-			// different deployment states)
+		case "votes", "headers":
+			// (votes: branches on either side of a window boundary can be
+			// in different deployment states; headers: a header on top of a
+			// branch that failed while being attached)
 			wBurst = 2
 		}
 		if cfg.Prune != 0 {
@@ -350,6 +351,7 @@ func run(r *simkit.Run) {
 			}
 			n := int(best.Height-fork.Height) + 1
 			parent := fork
+			var sawBad *MBlock
 			r.Probe("overtaking-branch")
 			for i := 0; i < n; i++ {
 				o := BlockOpts{NTx: c.Intn(maxTx+1, "ntx")}
@@ -366,9 +368,25 @@ func run(r *simkit.Run) {
 				s.deliverWithClock(b)
 				s.CheckState("deliver")
 				if b.Class != ClsValid {
+					if b.Class == ClsConnect && i < n-1 && sawBad == nil && c.Bool(600, "burst-past-invalid") {
+						// keep building on the block that will fail when the
+						// branch is attached: its descendants are part of
+						// the same failed attempt
+						sawBad = b
+						parent = b
+						continue
+					}
 					break
 				}
 				parent = b
+			}
+			if sawBad != nil && parent != sawBad && s.have(parent) {
+				// a header on top of the branch that failed validation
+				d := w.Build(parent, BlockOpts{})
+				r.Probe("header-after-failed-attach-scenario")
+				r.Event("mine", "%v on %v (header on a branch that failed while attaching)", d, parent)
+				s.DeliverHeader(d)
+				s.CheckState("header")
 			}
 		case 20:
 			s.CloneCompare(c.Bool(500, "clone-flush-first"))
@@ -566,6 +584,7 @@ func run(r *simkit.Run) {
 			for _, d := range w.Blocks[1:] {
 				if b.IsAncestorOf(d) {
 					delete(s.markedInvalid, d)
+					delete(s.failedAttach, d)
 				}
 			}
 			r.Event("reconsider", "%v err=%v", b, err != nil)
